@@ -393,26 +393,33 @@ func TruncFunc(spec1, spec2 Spec) func(string) string {
 	}
 
 	// Both multi-field with same number of fields
-	if len(spec1.Fields) == len(spec2.Fields) {
+	if len(spec1.Fields) == len(spec2.Fields) && len(spec1.Fields2) == 0 {
 		return func(s string) string { return s }
 	}
 
-	// Multi-field to multi-field with fewer fields
+	// Multi-field to multi-field, keep the first n fields.
+	// Empty trailing fields are omitted, as they are by Key.
+	// This includes the case where all the fields of a unique index are empty
+	// and the key consists of empty fields followed by Fields2.
 	n := len(spec2.Fields)
 	const sepLen = len(Sep)
 	return func(comp string) string {
 		pos := 0
-		for i := 0; i < n-1; i++ {
+		for i := 0; i < n; i++ {
 			sepPos := strings.Index(comp[pos:], Sep)
 			if sepPos == -1 {
-				return comp
+				pos = len(comp)
+				break
 			}
-			pos += sepPos + sepLen
+			pos += sepPos
+			if i < n-1 {
+				pos += sepLen
+			}
 		}
-		nextSep := strings.Index(comp[pos:], Sep)
-		if nextSep == -1 {
-			return comp
+		comp = comp[:pos]
+		for strings.HasSuffix(comp, Sep) {
+			comp = comp[:len(comp)-sepLen]
 		}
-		return comp[:pos+nextSep]
+		return comp
 	}
 }
